@@ -90,6 +90,12 @@ def h_from_ref(ctx):
             vs.append(viol(f"joserfc returns a different payload for a foreign token: {tag}", f"{payload[:40]!r} -> {got[:40]!r}"))
         if hdrs[0] != hdr:
             vs.append(viol(f"joserfc returns a different header for a foreign token: {tag}", f"{hdr} -> {hdrs[0]}"))
+    if isinstance(token, str):
+        # the same peer token handed over as octets and as a receive buffer
+        for tname, tval in (("bytes", token.encode()), ("bytearray", bytearray(token.encode()))):
+            c2 = scen.jws_consume(p_path, tval, vkey, [alg], payload=detached)
+            if not c2.ok or c2.value[0] != payload:
+                vs.append(viol(f"joserfc rejects a valid token of the independent implementation given as {tname}: {tag}", f"{alg}/{kind} payload {pname}: {c2.exc!r}"))
     if path == "compact":
         # a batch through the two-step API: this token is extracted, then another peer token, then this one is validated
         from joserfc import jws
@@ -211,6 +217,14 @@ def h_vectors(ctx):
 
 _pv = Part("rfc-vectors", h_vectors, split_depth=1)
 _pv.single_bucket_ok = True
+def h_multi_signer(ctx):
+    """joserfc signs general JSON for 2-3 signers whose members name alg / kid in the protected header, split them, or have no
+    protected header, in every order; each signature is verified by the reference (C03's part, only the wire-format findings)."""
+    out = c03.h_multi_signer(ctx)
+    out.violations = [v for v in out.violations if "not made with that member's key" in v["fingerprint"] or "cannot be produced" in v["fingerprint"] or "loses a signature" in v["fingerprint"]]
+    return out
+
+
 def h_threads(ctx):
     """Both interoperability directions while a second call runs: joserfc's token goes to the reference verifier ('sign'), the
     reference's token to joserfc ('verify'); operations, shared objects and oracle are those of C03's thread part."""
@@ -218,7 +232,10 @@ def h_threads(ctx):
     return c03.h_threads(ctx, directions=["sign", "verify"])
 
 
+_pms = Part("joserfc-multi-signer-to-ref", h_multi_signer, split_depth=2)
+_pms.single_bucket_ok = True
 PARTS = [
+    _pms,
     Part("thread-schedules", h_threads, bound={"quick": 1, "thorough": 2}, split_depth=3, budget={"quick": 2000, "thorough": 3000}, engine="E3"),
     Part("ref-to-joserfc", h_from_ref, split_depth=2, budget={"quick": 1200, "thorough": 1500}),
     Part("joserfc-to-ref", h_to_ref, split_depth=2, budget={"quick": 1200, "thorough": 1500}),
